@@ -54,16 +54,18 @@ def _cond(func, env, label, timeout):
 
 def conditions(tier):
     q = tier == "quick"
-    T = 300 if q else 1500
+    T = 480 if q else 1500
     cs = []
     # ---- (1) get_argument_nodes
     modes = ["ins", "copy0", "copy2"] if q else ["ins", "copy0", "copy1", "copy2"]
     for pk in ["sym3", "4,0", "3,1", "2,2", "1,3", "0,4"]:
         for mode in modes:
+            if mode == "copy1" and pk not in ("sym3", "2,2"):
+                continue
             cs.append(_cond("c02_argnodes", {"XH_PK": pk, "XH_MODE": mode, "XH_VARIANTS": "quick" if q else "full"},
                             f"argnodes_pk{pk.replace(',', '-')}_{mode}", T))
     # ---- (2a) run(output=structure)
-    base = {"XH_G": 2, "XH_HDOM": 2} if q else {"XH_G": 3, "XH_HDOM": 3}
+    base = {"XH_G": 2, "XH_HDOM": 2, "XH_POOR": "min"} if q else {"XH_G": 3, "XH_HDOM": 3, "XH_POOR": "std"}
 
     def out(root, rich, width=None, chunk=None, b=base):
         env = dict(b, XH_ROOT=root, XH_RICH=",".join(str(r) for r in rich))
@@ -77,24 +79,32 @@ def conditions(tier):
         cs.append(_cond("c02_output", env, lab, T))
 
     out("slot", [0])
-    for root in ("list", "tuple", "set"):
-        out(root, [0])
-        out(root, [1])
-    out("dict", [0])
-    out("dict", [2])
-    out("dict", [1], width=1)
-    out("dict", [1], width=2)
-    out("dict", [3])
+    def outc(root, rich, width, n):
+        if n == 1:
+            return out(root, rich, width=width)
+        for i in range(n):
+            out(root, rich, width=width, chunk=f"{i}/{n}")
+
+    m = 1 if q else 3  # thorough option lists are ~3x longer
+    for root in ("list", "tuple"):
+        outc(root, [0], 1, m)
+        outc(root, [0], 2, 2 * m)
+        outc(root, [1], 2, m)
+    out("set", [0])
+    out("set", [1], width=2)
+    outc("dict", [0], None, m)
+    outc("dict", [2], 2, m)
+    outc("dict", [1], 1, m)
+    outc("dict", [1], 2, 3 * m)
+    outc("dict", [3], 2, 2 * m)
     if not q:
-        g2 = {"XH_G": 2, "XH_HDOM": 2}
+        g2 = {"XH_G": 2, "XH_HDOM": 2, "XH_POOR": "std"}
         for root in ("list", "tuple"):
             for i in range(6):
                 out(root, [0, 1], width=2, chunk=f"{i}/6", b=g2)
         out("set", [0, 1], width=2, b=g2)
         out("dict", [0, 2], width=2, b=g2)
         out("dict", [0, 1], width=1, b=g2)
-        for i in range(4):
-            out("dict", [0, 1], width=2, chunk=f"{i}/4", b=g2)
     # ---- (2b) what the call function sees
     def call(pk, slots, chunk=None, extra=None):
         env = dict(base, XH_PK=pk, XH_SLOTS=slots)
@@ -107,16 +117,18 @@ def conditions(tier):
             lab += "_" + "_".join(f"{k[3:].lower()}{v}" for k, v in extra.items())
         cs.append(_cond("c02_callargs", env, lab, T))
 
-    call("sym1", "medium")
+    big = "medium" if q else "large"
+    call("sym1", big)
     for pk in ("2,0", "1,1", "0,2"):
-        call(pk, "medium")
+        call(pk, big)
     if q:
-        call("sym3", "poor")
+        call("eq3", "poor")
     else:
         for pk in ("3,0", "2,1", "1,2", "0,3"):
-            for i in range(4):
-                call(pk, "medium", chunk=f"{i}/4")
-        call("sym4", "poor")
+            for i in range(5):
+                call(pk, "medium", chunk=f"{i}/5")
+        call("eq3", "poor")
+        call("eq4", "poor")
         for pk in ("1,1", "0,2"):
             call(pk, "medium", extra={"XH_ORDER": "fifo"})
     # ---- (3) unpack
@@ -169,8 +181,8 @@ def _sweep(stride):
                             chk(H.c02_argnodes(p, k, *perm, v), ("argnodes", mode, p, k, perm, v))
     ctxs = {"list": ["free"] * 2, "tuple": ["free"] * 2, "set": ["selem"] * 2, "dict": ["key", "dval"] * 2, "slot": ["free"]}
     for root, widths in (("slot", [0]), ("list", [1, 2]), ("tuple", [1, 2]), ("set", [1, 2]), ("dict", [1, 2])):
-        for rich in ("0", "1", "2", "3", "0,1"):
-            H = _load({"XH_ROOT": root, "XH_RICH": rich, "XH_HDOM": 2})
+        for rich, poor in (("0", "min"), ("1", "min"), ("2", "min"), ("3", "min"), ("0", "std"), ("3", "std"), ("0,1", "std")):
+            H = _load({"XH_ROOT": root, "XH_RICH": rich, "XH_HDOM": 2, "XH_POOR": poor})
             for w in widths:
                 ns = {"slot": 1, "dict": 2 * w}.get(root, w)
                 ranges = [range(len(H._slot_opts(s, ctxs[root][s]))) for s in range(ns)]
@@ -179,10 +191,10 @@ def _sweep(stride):
                     for leaves in LEAVES:
                         if take():
                             chk(H.c02_output(w, *codes, *leaves), ("output", root, rich, w, codes, leaves))
-    H = _load({"XH_PK": "sym3", "XH_SLOTS": "medium"})
+    H = _load({"XH_PK": "sym3", "XH_SLOTS": "large"})
     for p in range(3):
         for k in range(3 - p):
-            for codes in itertools.product(range(len(H.MEDIUM)), repeat=p + k):
+            for codes in itertools.product(range(len(H.LARGE)), repeat=p + k):
                 codes = list(codes) + [0] * (4 - len(codes))
                 if take():
                     chk(H.c02_callargs(p, k, *codes, *LEAVES[1]), ("callargs", p, k, codes))
@@ -357,7 +369,7 @@ def _sensitivity():
         return d
 
     plan_mod.GATHER_LOOKUP[dict] = first_wins
-    H = _load({"XH_ROOT": "dict", "XH_RICH": "0", "XH_WIDTH": 2})
+    H = _load({"XH_ROOT": "dict", "XH_RICH": "0", "XH_WIDTH": 2, "XH_POOR": "std"})
     ia, ib = H.KEY_RICH.index(("L", H.NODE_A)), H.POOR3.index(("L", H.NODE_B))
     expect_false(H, "c02_output", (2, ia, 0, ib, 0) + (5, 5, 0, 1, 1, 2, 3, 4, 5, 6, 7, 8, 0, 1, 0, 1), "dict first value wins")
     plan_mod.GATHER_LOOKUP[dict] = orig_gd
